@@ -36,6 +36,40 @@ theorem skeleton_ok :
       Gen.Skeleton.senderClose = Model.Skeleton.senderClose ∧ Gen.Skeleton.pipeClose = Model.Skeleton.pipeClose) := by
   decide
 
+/-- Tie 1 for **the context `stream.Merge` hands to its inputs and to `Send`**: the regenerated right-hand
+side of `ctx, cancel := …` is `context.WithCancel(context.Background())` — no deadline, no parent that can
+end —, the variable `cancel` occurs in `Merge` (closures included) exactly twice, both times as the call
+`cancel()` (their positions are pinned by `winSeq_eq`: after the won CAS, and `closeSeq_eq`: in the closure run
+by `Close`), and `ctx` occurs exactly as the argument of `in[i].Next` and of `sender.Send`. Hence nobody but
+those two calls can end that context: `ctxOrigin = plainCancel`, and the LTS's environment label `ctxEnds`
+("the context ends without `cancel()`") is dead. The property theorems below that rely on it
+(`streamMerge_first_error`, `streamMerge_end_only_if_all_done`, `streamMerge_end_iff_all_done`,
+`streamMerge_interleaving`, `streamMerge_goroutines_finish_after_close`, and those of `Props/C12Progress.lean`)
+re-derive `ctxOrigin = plainCancel` from the generated facts inside their own proofs. -/
+theorem ctx_origin_ok :
+    Gen.Merge.smCtxRhs = "context.WithCancel(context.Background())" ∧
+    Gen.Merge.smCtxCancelUses = ["cancel()", "cancel()"] ∧
+    Gen.Merge.smCtxCtxUses = ["in[i].Next(ctx)", "sender.Send(ctx,item)"] ∧
+    StreamMerge.ctxOrigin = .plainCancel ∧
+    (∀ (V : Type) (k : Nat) (s : StreamMerge.St V), StreamMerge.Reach (StreamMerge.init V k) s →
+      StreamMerge.step s .ctxEnds = none) := by
+  refine ⟨by decide, by decide, by decide, by decide, ?_⟩
+  intro V k s h
+  have ho : StreamMerge.ctxOrigin = .plainCancel := by decide
+  cases hs : StreamMerge.step s .ctxEnds with
+  | none => rfl
+  | some s' => exact (Juniper.Proofs.StreamMerge.no_ctxEnds ((Juniper.Proofs.StreamMerge.reach_invA h).org.trans ho) hs).elim
+
+/-- non-vacuity of the dependence: classified from the texts of a `WithTimeout` / a derived context / a third
+use of `cancel`, the origin is not `plainCancel` -/
+example : StreamMerge.ctxOriginOf "context.WithTimeout(context.Background(),time.Minute)" "context.WithTimeout"
+      "context.Background()" ["cancel()", "cancel()"] ["in[i].Next(ctx)", "sender.Send(ctx,item)"] = .deadline ∧
+    StreamMerge.ctxOriginOf "context.WithCancel(parent)" "context.WithCancel" "parent" ["cancel()", "cancel()"]
+      ["in[i].Next(ctx)", "sender.Send(ctx,item)"] = .derivedFromCaller ∧
+    StreamMerge.ctxOriginOf "context.WithCancel(context.Background())" "context.WithCancel" "context.Background()"
+      ["time.AfterFunc(time.Hour,cancel)", "cancel()", "cancel()"] ["in[i].Next(ctx)", "sender.Send(ctx,item)"] = .other := by
+  decide
+
 section chans
 variable {V : Type} [HasNil V]
 open Juniper.Model.Merge Juniper.Proofs.MergeChans
@@ -144,19 +178,33 @@ open Juniper.Model.StreamMerge Juniper.Proofs.StreamMerge
 
 /-- **stream.Merge outputs an interleaving of its inputs** — for every number of inputs `k` and every
 reachable state: what the consumer received from input `i`, followed by the item goroutine `i` is
-currently trying to send, followed by the item whose `Send` failed (only possible once the merged
-stream was closed, an error was reported or the pipe's sender was closed), is exactly the sequence of
+currently trying to send, followed by the item whose `Send` failed, is exactly the sequence of
 items `in[i].Next` has returned. So the output restricted to input `i` is a prefix of input `i` (order
 preserved, nothing duplicated or invented), and every delivered item carries the tag of one of the
-`k` inputs. -/
+`k` inputs. Third conjunct: an item is dropped (its `Send` failed) only after `Close` of the merged stream
+was called or the CAS on `closeOnce` was won, i.e. some input returned an error — never merely because
+time passed: this uses that the context handed to `Send` ends only through `cancel()` (`ctxOrigin`,
+re-derived here from the regenerated facts). -/
 theorem streamMerge_interleaving (k : Nat) (s : St V) (h : Reach (init V k) s) :
     (∀ i g, s.gs[i]? = some g → proj i s.out ++ heldG g.pc ++ g.dropped = g.items) ∧
-    (∀ p, p ∈ s.out → p.1 < k) := by
+    (∀ p, p ∈ s.out → p.1 < k) ∧
+    (∀ g, g ∈ s.gs → g.dropped ≠ [] → s.closeOnce = true ∨ ∃ rest, s.cpc = .closing rest) := by
+  have ho : ctxOrigin = .plainCancel := by decide
+  have hf := reach_invF ho h
   have hb : InvB k s := by
+    clear hf
     induction h with
     | refl => exact invB_init k
     | step l hr hs ih => exact invB_step (reach_invA hr) ih hs
-  exact ⟨hb.conserve, hb.tags⟩
+  refine ⟨hb.conserve, hb.tags, ?_⟩
+  intro g hg hd
+  cases hco : s.closeOnce with
+  | true => exact .inl rfl
+  | false =>
+    right
+    refine Classical.byContradiction fun hn => ?_
+    have hnc : notClosing s := fun rest hr => hn ⟨rest, hr⟩
+    exact hd (hf.drop g hg (hf.f4 hco hnc g hg))
 
 example : ∃ s : St (Option Int), Reach (init (Option Int) 2) s ∧ s.out = [(1, some 7), (0, some 3)] ∧
     s.results = [.item 1 (some 7), .item 0 (some 3)] :=
@@ -186,7 +234,8 @@ theorem streamMerge_inputs_closed_once (k : Nat) (s : St V) (h : Reach (init V k
 /-- **After the merged stream has been closed, the goroutines of stream.Merge finish without needing
 further input** — in every reachable state in which `Close` has been called (`cpc = closing rest`):
 (1) every step whatsoever strictly decreases the measure `nu` and `Close` stays in progress, so only
-finitely many steps remain; (2) as long as `Close` has not returned or some goroutine has not
+finitely many steps remain (this uses that the context ends only through `cancel()` — `ctxOrigin`,
+re-derived here from the regenerated facts — so that the environment label `ctxEnds` is dead); (2) as long as `Close` has not returned or some goroutine has not
 finished, a step from `internalLabels` is enabled — a step of a goroutine, of `Close`, or the return
 of an input's `Next` with the error of the cancelled context; none of them is an item, an end or an
 error of an input; (3) hence some run of such steps ends with `Close` returned and every goroutine
@@ -199,9 +248,10 @@ theorem streamMerge_goroutines_finish_after_close (k : Nat) (s : St V) (h : Reac
     (∀ l s', step s l = some s' → nu s' < nu s ∧ ∃ rest', s'.cpc = .closing rest') ∧
     ((rest ≠ [] ∨ ∃ g, g ∈ s.gs ∧ g.pc ≠ .finished) → ∃ l, l ∈ internalLabels s ∧ ∃ s', step s l = some s') ∧
     (∃ ls s', run s ls = some s' ∧ InternalRun s ls ∧ s'.cpc = .closing [] ∧ ∀ g, g ∈ s'.gs → g.pc = .finished) :=
-  ⟨⟨by decide, by decide, by decide⟩, fun _ _ hs => after_close_decreases hc hs,
+  have ho : ctxOrigin = .plainCancel := by decide
+  ⟨⟨by decide, by decide, by decide⟩, fun _ _ hs => after_close_decreases ((reach_invA h).org.trans ho) hc hs,
    fun hnf => after_close_enabled (reach_invA h) (reach_invD h) hc hnf,
-   after_close_finishes (nu s) s rest (reach_invA h) (reach_invD h) hc (Nat.le_refl _)⟩
+   after_close_finishes ho (nu s) s rest (reach_invA h) (reach_invD h) hc (Nat.le_refl _)⟩
 
 /-- two inputs blocked forever in `Next`, one item delivered, then `Close`: everything finishes -/
 example : ∃ s : St (Option Int), Reach (init (Option Int) 2) s ∧ s.cpc = .closing [] ∧
@@ -241,33 +291,55 @@ theorem streamMerge_zero_inputs_ends (s : St V) (h : Reach (init V 0) s) :
 example : ∃ s : St (Option Int), Reach (init (Option Int) 0) s ∧ s.results = [.endd, .endd] :=
   ⟨_, reach_of_run [.cCall true, .cEnd, .cCall false, .cEnd] .refl rfl, by decide⟩
 
-/-- **stream.Merge reports the first error of any input, never the normal end** (also the Merge clause
+/-- **stream.Merge reports the error of the input whose goroutine wins the CAS on `closeOnce` — "first" means
+first to reach that CAS, not first `Next` to return: `errLog` order (the time the inputs' `Next` calls returned)
+need not agree with it —, never the normal end** (also the Merge clause
 of C08). In every reachable state: (1) an error the consumer was given is an injected error `x` of some
-input `i` — never the error of the merge's own cancelled context —, that input really returned it
-(`errLog`), and it is the error of the goroutine whose CAS on `closeOnce` succeeded, i.e. of the first
-goroutine to reach the CAS with an error (`winner` is written once); hence all errors reported are
+input `i` — never the error of the merge's own context, be it cancelled or (had it one) past its deadline —,
+that input really returned it (`errLog`), and it is the error of the goroutine whose CAS on `closeOnce`
+succeeded (`winner` is written once: the first goroutine to reach the CAS with an error; two inputs failing
+at about the same time may be reported in either order); hence all errors reported are
 the same; (2) once any input has returned an error the consumer is never told the normal end;
 (3) once the sender is closed with error `e`, a pending `Next` can always return, and returns `e`;
 (4) once any input has returned an error, a consumer waiting in `Next` is never stuck: some step
 that needs no further input (the CAS, a statement of the winner, or the `senderDone` arm of `Next`)
-is enabled — the error cannot be followed by silence. (0) First conjunct: between an input's `Next`
+is enabled — the error cannot be followed by silence; (5) the context handed to the inputs and to `Send` has
+ended, or a goroutine holds that context's error, only if the CAS was won (an input failed) or `Close` of
+the merged stream was called: it never ends because time passed or because of anybody else, so no input is
+ever failed by the library. (0) First conjunct: between an input's `Next`
 returning a non-End error and the CAS there is no statement — in particular no test of the error's kind
-that returns early —, and `mergeStream.Next`, `pipeStream.Next`, `PipeSender.Close` pass the error
-through untouched (regenerated control skeletons). -/
+that returns early —, `mergeStream.Next`, `pipeStream.Next`, `PipeSender.Close` pass the error
+through untouched (regenerated control skeletons), and the context is
+`context.WithCancel(context.Background())`, ended by nobody but the two modelled `cancel()` calls
+(`ctxOrigin = plainCancel`, from the regenerated right-hand side of `ctx, cancel := …` and the regenerated
+lists of all uses of `cancel` and `ctx`; (1), (2) and (5) are proved from it). -/
 theorem streamMerge_first_error (k : Nat) (s : St V) (h : Reach (init V k) s) :
     (Gen.Skeleton.streamMergeWorker = Model.Skeleton.streamMergeWorker ∧
       Gen.Skeleton.mergeNext = Model.Skeleton.mergeNext ∧ Gen.Skeleton.pipeNext = Model.Skeleton.pipeNext ∧
-      Gen.Skeleton.senderClose = Model.Skeleton.senderClose) ∧
+      Gen.Skeleton.senderClose = Model.Skeleton.senderClose ∧ ctxOrigin = .plainCancel) ∧
     (∀ e, Res.err e ∈ s.results → ∃ i x, e = .inj x ∧ s.winner = some (i, .inj x) ∧ (i, x) ∈ s.errLog) ∧
     (s.errLog ≠ [] → Res.endd ∉ s.results) ∧
     (∀ e, s.senderErr = some e → 0 < s.senderCloses → ∀ live, s.cpc = .inNext live →
       ∃ s', step s .cEnd = some s' ∧ s'.results = s.results ++ [.err e]) ∧
-    (s.errLog ≠ [] → ∀ live, s.cpc = .inNext live → ∃ l, l ∈ internalLabels s ∧ ∃ s', step s l = some s') := by
+    (s.errLog ≠ [] → ∀ live, s.cpc = .inNext live → ∃ l, l ∈ internalLabels s ∧ ∃ s', step s l = some s') ∧
+    ((s.cancelled = true ∨ ∃ g, g ∈ s.gs ∧ (g.pc = .gotErr .ctx ∨ ∃ r, g.pc = .won .ctx r)) →
+      s.closeOnce = true ∨ ∃ rest, s.cpc = .closing rest) := by
+  have ho : ctxOrigin = .plainCancel := by decide
   have ha := reach_invA h
   have hc := reach_invC h
-  have hf := reach_invF h
-  refine ⟨⟨by decide, by decide, by decide, by decide⟩, ?_, ?_, ?_,
-    fun herr live hcp => error_never_stuck ha hc hf (reach_invL h) herr hcp⟩
+  have hf := reach_invF ho h
+  refine ⟨⟨by decide, by decide, by decide, by decide, ho⟩, ?_, ?_, ?_,
+    fun herr live hcp => error_never_stuck ha hc hf (reach_invL h) herr hcp, ?_⟩
+  rotate_right
+  · intro hcan
+    have hcan' : s.cancelled = true := by
+      rcases hcan with hcan | ⟨g, hg, hp⟩
+      · exact hcan
+      · refine hf.r3 g hg ?_
+        rcases hp with hp | ⟨r, hp⟩ <;> simp [hp, isCtxPc]
+    refine Classical.byContradiction fun hn => ?_
+    have hnc : notClosing s := fun rest hr => hn (.inr ⟨rest, hr⟩)
+    exact hn (.inl ((hf.j3 hnc).2 hcan'))
   · intro e he
     obtain ⟨i, x, h1, h2⟩ := hf.r1 e he
     exact ⟨i, x, h1, h2, hc.w4 i x h2⟩
@@ -296,6 +368,30 @@ example : ∃ s : St (Option Int), Reach (init (Option Int) 2) s ∧
   ⟨_, reach_of_run [.inItem 1 (some 5), .inErr 0 7, .cCall true, .sendOk 1, .inErr 1 8, .cas 0, .cas 1, .win 0, .win 0,
       .cCall true, .cEnd, .cCall false, .cEnd] .refl rfl, by decide⟩
 
+/-- "first" is the CAS, not the clock: input 0 returns its error before input 1 does, goroutine 1 reaches the
+CAS first and the consumer is told 8 -/
+example : ∃ s : St (Option Int), Reach (init (Option Int) 2) s ∧
+    s.results = [.err (.inj 8)] ∧ s.errLog = [(0, 7), (1, 8)] :=
+  ⟨_, reach_of_run [.inErr 0 7, .inErr 1 8, .cas 1, .cas 0, .win 1, .win 1, .cCall true, .cEnd] .refl rfl, by decide⟩
+
+/-- **Non-vacuity of the dependence on `ctxOrigin`** — the same LTS started with a context that has a
+deadline (what `ctx, cancel := context.WithTimeout(context.Background(), time.Minute)` would generate): the
+consumer waits in `Next`, no input has failed or ended, time passes (`ctxEnds`), the input honours the
+context it was given, its goroutine wins the CAS with the context's error, and the consumer is told an
+error that no input produced: `results = [err ctx]` with `errLog = []`, `closeOnce` set although nothing
+failed — (1) and (5) of `streamMerge_first_error` are false there, and the merged stream has failed
+although every input is still willing to deliver. On the unchanged tree `ctxEnds` is dead (`ctx_origin_ok`). -/
+example : ∃ s : St (Option Int),
+    run { init (Option Int) 1 with origin := .deadline } [.cCall true, .ctxEnds, .inCtx 0, .cas 0, .win 0, .win 0, .cEnd]
+      = some s ∧ s.results = [.err .ctx] ∧ s.errLog = [] ∧ s.winner = some (0, .ctx) ∧ s.cpc = .idle :=
+  ⟨_, rfl, by decide⟩
+/-- … and there an item can be dropped and the stream can end early: with two inputs, input 1 delivers an item
+nobody has asked for yet; the deadline passes; `Send` fails, the item is dropped without any `Close` or input error -/
+example : ∃ s : St (Option Int),
+    run { init (Option Int) 2 with origin := .deadline } [.inItem 1 (some 4), .ctxEnds, .sendFail 1] = some s ∧
+      s.gs.map (·.dropped) = [[], [some 4]] ∧ s.closeOnce = false ∧ s.cpc = .idle ∧ s.errLog = [] :=
+  ⟨_, rfl, by decide⟩
+
 /-- **A `Next` of the merged stream that fails on its expired context costs nothing** (the Merge clause
 of C08): taking the `ctx.Done()` arm changes nothing but the consumer's own state — no goroutine
 moves, no item is taken or dropped, the sender is untouched — so the next `Next` continues exactly
@@ -310,17 +406,50 @@ theorem streamMerge_ctx_costs_nothing (s s' : St V) (h : step s .cCtx = some s')
 example : ∃ s : St (Option Int), Reach (init (Option Int) 1) s ∧ s.results = [.ctx, .item 0 (some 4)] :=
   ⟨_, reach_of_run [.inItem 0 (some 4), .cCall false, .cCtx, .cCall true, .sendOk 0] .refl rfl, by decide⟩
 
+/-- **The consumer's context may expire at any moment of a pending `Next`, and that costs nothing either**
+("all relative speeds of producer and consumer"). The expiry (`cExpire`, an action of the consumer's side:
+`inNext true → inNext false`) is possible exactly while a `Next` with a live context is pending; it changes
+nothing but that flag — no goroutine moves, nothing is taken, dropped or closed —; afterwards the `ctx.Done()`
+arm of that `Next` is enabled and taking it returns the context's error and nothing else
+(`streamMerge_ctx_costs_nothing`); the other arms stay as they were, so an item or the end / error that
+becomes available at the same time may be returned instead (Go's `select` picks either). -/
+theorem streamMerge_ctx_expiry_while_pending (s s' : St V) (h : step s .cExpire = some s') :
+    s.cpc = .inNext true ∧ s' = { s with cpc := .inNext false } ∧
+    (∃ s'', step s' .cCtx = some s'' ∧ s''.results = s.results ++ [.ctx] ∧ s''.gs = s.gs ∧ s''.out = s.out ∧
+      s''.cpc = .idle) ∧
+    (∀ i, step s' (.sendOk i) = step s (.sendOk i)) ∧
+    step s' .cEnd = step s .cEnd := by
+  obtain ⟨hp, rfl⟩ := step_cExpire h
+  have hx : step ({ s with cpc := .inNext false } : St V) .cCtx =
+      some { s with cpc := .idle, results := s.results ++ [.ctx] } := by simp [step, nextArmCtx_eq]
+  refine ⟨hp, rfl, ⟨_, hx, rfl, rfl, rfl, rfl⟩, ?_, ?_⟩
+  · intro i
+    simp only [step, hp]
+    cases s.gs[i]? with
+    | none => rfl
+    | some g => cases hpc : g.pc <;> simp [hpc]
+  · simp only [step, hp]
+
+/-- the consumer waits with a live context, input 0 is silent; the context expires; `Next` returns its error;
+the item that arrives later goes to the next `Next` — or, had it arrived between expiry and return, to this one -/
+example : ∃ s : St (Option Int), Reach (init (Option Int) 1) s ∧ s.results = [.ctx, .item 0 (some 4)] :=
+  ⟨_, reach_of_run [.cCall true, .cExpire, .cCtx, .inItem 0 (some 4), .cCall true, .sendOk 0] .refl rfl, by decide⟩
+example : ∃ s : St (Option Int), Reach (init (Option Int) 1) s ∧ s.results = [.item 0 (some 4)] :=
+  ⟨_, reach_of_run [.cCall true, .cExpire, .inItem 0 (some 4), .sendOk 0] .refl rfl, by decide⟩
+
 /-- **The merged stream ends only when every input has ended and everything was delivered** (the
 "only if" half of `streamMerge_end_iff_all_done`).
 In every reachable state in which the consumer has been told the normal end: every input's `Next`
-returned `End` (no goroutine left its loop for another reason), no input ever returned an error, and
-the items the consumer received from input `i` are exactly the items `in[i].Next` returned, in
-order. -/
+returned `End` (no goroutine left its loop for another reason — in particular none because the context
+it was given ended: `ctxOrigin = plainCancel` is re-derived from the regenerated facts in this proof), no
+input ever returned an error, and the items the consumer received from input `i` are exactly the items
+`in[i].Next` returned, in order. -/
 theorem streamMerge_end_only_if_all_done (k : Nat) (s : St V) (h : Reach (init V k) s)
     (hend : Res.endd ∈ s.results) :
     (∀ i g, s.gs[i]? = some g → g.why = some .ended ∧ proj i s.out = g.items) ∧ s.errLog = [] := by
+  have ho : ctxOrigin = .plainCancel := by decide
   have ha := reach_invA h
-  have hf := reach_invF h
+  have hf := reach_invF ho h
   have hb : InvB k s := by
     clear hend hf ha
     induction h with
@@ -350,25 +479,30 @@ theorem streamMerge_end_only_if_all_done (k : Nat) (s : St V) (h : Reach (init V
 /-- **The merged stream ends exactly when all inputs are exhausted and everything has been
 delivered.** Only if: `streamMerge_end_only_if_all_done`. If: in every reachable state in which every
 input's `Next` has returned `End` and the consumer is waiting in `Next` with a live context,
-(1) some step that needs no further input is enabled; (2) every enabled step either hands the normal
+(1) some step that needs no further input is enabled; (2) every enabled step other than the expiry of the
+consumer's own context (`cExpire` — after it that `Next` may return the context's error instead, which
+costs nothing: `streamMerge_ctx_costs_nothing`) either hands the normal
 end to that `Next`, or keeps the situation and strictly decreases the measure `nu2` (no item is left
 to deliver: no goroutine is in its loop any more); hence (3) some run of steps needing no further
-input delivers the normal end. -/
+input delivers the normal end. No fairness is asserted: (1)–(3) are enabledness, a strictly decreasing
+measure and the existence of a run; that the scheduler runs enabled goroutine steps is the trusted
+runtime assumption. -/
 theorem streamMerge_end_iff_all_done (k : Nat) (s : St V) (h : Reach (init V k) s) :
     (Res.endd ∈ s.results →
       (∀ i g, s.gs[i]? = some g → g.why = some .ended ∧ proj i s.out = g.items) ∧ s.errLog = []) ∧
     (AllEnded s → s.cpc = .inNext true →
       (∃ l, l ∈ internalLabels s ∧ ∃ s', step s l = some s') ∧
-      (∀ l s', step s l = some s' → AllEnded s' ∧
+      (∀ l s', l ≠ .cExpire → step s l = some s' → AllEnded s' ∧
         ((s'.cpc = .inNext true ∧ s'.results = s.results ∧ nu2 s' < nu2 s) ∨ s'.results = s.results ++ [.endd])) ∧
       (∃ ls s', run s ls = some s' ∧ InternalRun s ls ∧ s'.results = s.results ++ [.endd])) := by
   refine ⟨streamMerge_end_only_if_all_done k s h, ?_⟩
   intro hall hcp
+  have ho : ctxOrigin = .plainCancel := by decide
   have ha := reach_invA h
   have hc := reach_invC h
   have hl := reach_invL h
-  obtain ⟨h1, h2⟩ := end_progress ha hc hl hall hcp
-  exact ⟨h1, h2, end_delivered (nu2 s) s ha hc hl hall hcp (Nat.le_refl _)⟩
+  obtain ⟨h1, h2⟩ := end_progress ho ha hc hl hall hcp
+  exact ⟨h1, h2, end_delivered ho (nu2 s) s ha hc hl hall hcp (Nat.le_refl _)⟩
 
 /-- three inputs end one after the other, two items are delivered in between, then the end -/
 example : ∃ s : St (Option Int), Reach (init (Option Int) 3) s ∧
